@@ -468,6 +468,7 @@ pub(crate) fn c13_wrap_load_arc() {
 #[cfg_attr(kani, kani::stub(crate::debt::Node::traverse, crate::debt::verif_h::list_h::traverse_unrolled2))]
 #[cfg_attr(kani, kani::stub(crate::debt::LocalNode::with, crate::debt::verif_h::list_h::with_static))]
 #[cfg_attr(kani, kani::stub(crate::debt::Node::get, crate::debt::verif_h::list_h::node_get_unexpected))]
+#[cfg_attr(kani, kani::stub(crate::debt::LocalNode::help, crate::debt::verif_h::list_h::help_contract))]
 #[cfg_attr(kani, kani::unwind(12))]
 pub(crate) fn solo_wait_for_readers_full_slots() {
     fresh_ledger();
